@@ -258,7 +258,8 @@ let s_hist judge g obs = Hist.run_history g obs judge
 let no_judge _ _ = "ok"
 
 let register_all register =
-  List.iter (fun n -> register ("hist" ^ n) (s_hist no_judge)) ["C01"; "C02"; "C03"; "C04"; "C05"; "C06"; "C07"; "C08"; "C09"];
+  register "histC01" (s_hist Judge.judge_c01);
+  List.iter (fun n -> register ("hist" ^ n) (s_hist no_judge)) ["C02"; "C03"; "C04"; "C05"; "C06"; "C07"; "C08"; "C09"];
   register "phy" s_phy;
   register "phyenc" s_phyenc;
   register "maccmd" s_maccmd;
